@@ -26,7 +26,7 @@ theorem Clean.noIgnoredBelow {ign : List String} {root : Node} (h : Clean ign ro
 
 def rmL (ign : List String) (d : Delta) : List Removed := d.removed.filter fun r => !ignored ign r.path
 def kcL (ign : List String) (d : Delta) : List KindChanged := d.kindChanged.filter fun k => !ignored ign k.path
-def adL (ign : List String) (d : Delta) : List Path := d.added.filter fun p => !ignored ign p
+def adL (ign : List String) (d : Delta) : List Path := (d.added ++ d.copied).filter fun p => !ignored ign p
 def mdL (ign : List String) (d : Delta) : List Path := d.modified.filter fun p => !ignored ign p
 
 def renOrder (c : Cfg) (d : Delta) : List Renamed :=
